@@ -91,7 +91,8 @@ def run_gen(pid, module, cfg, workers=4, timeout_s=900, simulate=None, seed=None
     scs = []
     for line in r["out"].splitlines():
         if line.startswith('<<"REPLAY", '):
-            scs.append(json.loads(line[len('<<"REPLAY", '):-2]))
+            v = json.loads(line[len('<<"REPLAY", '):-2])
+            scs.append(json.loads(v) if isinstance(v, str) else v)
     scs.sort(key=lambda x: json.dumps(x, sort_keys=True))   # TLC prints in worker order; make sampling reproducible
     r["scenarios"] = scs
     return r
